@@ -278,11 +278,19 @@ def rule_positioned(run, prog):
                               and any(_contains(s, a) for s in an.body) for an in ancestors(a))
                 if guarded:
                     continue
-                sure = {h for h in hnodes if not _in_loop_relative(g.nodes[h].ast, cnode)}
+                sure = {h for h in hnodes if not _in_loop_relative(g.nodes[h].ast, cnode, fn)}
                 # branch outcomes that cannot be taken while the object has no highlight (if error.highlights: ...,
                 # if not error.highlights: return, if len(error.highlights) >= 1: ...) count as positioned
                 cut = {(nd.id, lab) for nd in g.nodes if nd.kind == "test" for lab in ("T", "F")
                        if _implies_positioned(nd.ast, lab == "T", var)}
+                # a loop over a local proven non-empty whose body surely positions the object: its exhaustion edge is only
+                # taken after at least one turn of the body
+                for h in sure:
+                    for a_ in ancestors(g.nodes[h].ast):
+                        if isinstance(a_, ast.For) and not _contains(a_, cnode) and _iterates_nonempty(a_, fn):
+                            hid = next((nd.id for nd in g.nodes if nd.kind == "iter" and nd.ast is a_), None)
+                            if hid is not None:
+                                cut.add((hid, "F"))
                 if g.can_reach(cid, aid, avoid=sure | others, follow_exc=False,
                                edge_filter=lambda x, y, lab: (x, lab) not in cut):
                     bad.append(a)
@@ -310,11 +318,31 @@ def _contains(container, node) -> bool:
     return False
 
 
-def _in_loop_relative(node, creation) -> bool:
+def _iterates_nonempty(loop, fn) -> bool:
+    """`for v in X:` whose X is a single-assignment local that an earlier statement of the same block has tested for emptiness
+    with an early exit (`if not X: return / raise / continue`): the body runs at least once."""
+    from ..fold import local_env
+    if not (isinstance(loop, ast.For) and isinstance(loop.iter, ast.Name) and loop.iter.id in local_env(fn)):
+        return False
+    x = loop.iter.id
+    blk = parent(loop)
+    for field in ("body", "orelse", "finalbody"):
+        stmts = getattr(blk, field, None)
+        if isinstance(stmts, list) and loop in stmts:
+            for st in stmts[:stmts.index(loop)]:
+                if isinstance(st, ast.If) and not st.orelse and st.body and isinstance(st.body[-1], (ast.Return, ast.Raise, ast.Continue)) \
+                        and text(st.test) in (f"not {x}", f"len({x}) == 0", f"{x} == []", f"not len({x})"):
+                    return True
+    return False
+
+
+def _in_loop_relative(node, creation, fn=None) -> bool:
     """node sits in a for/while body (or under an if) that does not also contain the creation:
     it may execute zero times after the creation."""
     for a in ancestors(node):
         if isinstance(a, (ast.For, ast.While, ast.If)) and not _contains(a, creation):
+            if fn is not None and isinstance(a, ast.For) and (node in a.body or node in [getattr(s_, "value", None) for s_ in a.body]) and _iterates_nonempty(a, fn):
+                continue
             return True
         if isinstance(a, (ast.FunctionDef, ast.AsyncFunctionDef)):
             break
@@ -482,15 +510,39 @@ def rule_order(run, prog):
                 loop = next(x for x in ancestors(c) if isinstance(x, (ast.For, ast.While)) and not any(_contains(x, cr) for cr in creations))
                 okk = False
                 why = "loop form not recognised"
-                if isinstance(loop, ast.For) and isinstance(loop.iter, ast.Call) and text(loop.iter.func) in ("enumerate", "range") \
+                if isinstance(loop, ast.For) and _ascending_indices(loop.iter, fn) is not None \
                         and a is not None and isinstance(a[1], ast.BinOp) and isinstance(a[1].op, ast.Add):
-                    lv = loop.target.elts[0] if isinstance(loop.target, ast.Tuple) else loop.target
+                    lv = loop.target.elts[0] if isinstance(loop.target, ast.Tuple) and _ascending_indices(loop.iter, fn) == "pairs" \
+                        else loop.target
                     if isinstance(a[1].right, ast.Name) and isinstance(lv, ast.Name) and a[1].right.id == lv.id \
                             and not any(isinstance(x, ast.Name) and x.id == lv.id for x in ast.walk(a[0])):
                         okk = True
                 run.ob("R-8.4", f"{fn.key}::multi-highlight[{var}/loop]", okk,
                        f"highlights added in a loop: cannot show ascending positions ({why})", c)
     run.require(n_multi >= 4, f"only {n_multi} multi-highlight sites found (floor 4)")
+
+
+def _ascending_indices(it, fn, depth=0):
+    """"pairs" when *it* yields (ascending index, item) pairs (enumerate), "values" when it yields ascending numbers (range, sorted,
+    a single-assignment local bound to one of those, a comprehension that keeps -- filtered or not -- the indices of such an
+    iteration in order); None otherwise."""
+    from ..fold import local_env
+    if depth > 3:
+        return None
+    if isinstance(it, ast.Call) and text(it.func) == "enumerate":
+        return "pairs"
+    if isinstance(it, ast.Call) and text(it.func) in ("range", "sorted"):
+        return "values"
+    if isinstance(it, ast.Name):
+        e = local_env(fn).get(it.id)
+        return _ascending_indices(e, fn, depth + 1) if e is not None and _ascending_indices(e, fn, depth + 1) == "values" else None
+    if isinstance(it, (ast.ListComp, ast.GeneratorExp)) and len(it.generators) == 1 and isinstance(it.elt, ast.Name):
+        gen = it.generators[0]
+        kind = _ascending_indices(gen.iter, fn, depth + 1)
+        idx = gen.target.elts[0] if kind == "pairs" and isinstance(gen.target, ast.Tuple) else gen.target if kind == "values" else None
+        if isinstance(idx, ast.Name) and idx.id == it.elt.id:
+            return "values"
+    return None
 
 
 def _code_of(call) -> str:
@@ -583,7 +635,10 @@ def rule_formatters(run, prog):
             ds = []
             for i, (lv, pos) in enumerate(diags):
                 if i == 1:
-                    ds.append(b.error("CUSTOM_CODE", weird, level=lv, positions=(pos, (pos[0], pos[1] + 3))))
+                    # (the second highlight carries a hint, as the lexer's "perhaps you forgot a quote" ones do: the position
+                    # shown is still the first highlight's, the one the diagnostics are ordered by)
+                    ds.append(b.error("CUSTOM_CODE", weird, level=lv, positions=(pos, (pos[0], pos[1] + 3)),
+                                      hints=(None, "Perhaps you forgot a quote?")))
                 elif i in (0, 2) and diags is not plan[0][1] or i == 2:
                     # the same code with a text of its own at every occurrence (the lexer's BAD_LEXEME names the character):
                     # what is shown for a diagnostic is a function of that diagnostic, not of the code's first occurrence
